@@ -136,8 +136,9 @@ def run(R, only=None):
                        "(preservation of the token by the real libraries is what the correspondence observes)",
                        "zipfile"]
     R.assumptions += ["floats are identified with their JSON text (repr): CPython's float(repr(x)) == x is assumed, exercised on the generated floats",
-                      "C05_roundtrip_partial is proved for values without repeated identity labels except on childless nodes "
-                      "(see coq/props/C05.v for the exact guard); sharing in general is covered by the correspondence only",
+                      "C05_roundtrip_partial is proved on the decidable fragment c05_guard (arbitrary sharing; bytes / bytearray and rank-1 object arrays included; "
+                      "see coq/props/C05.v for what is inside and what is still missing: object arrays of rank 0 or >= 2, scipy sparse arrays); "
+                      "supported values outside it are covered by the per-case model evaluation and the correspondence only",
                       "the identity pattern of objects returned by __reduce__()/__getstate__()/get_state() is the same in the emitter's call and in the dump's call"]
     if snap is None:
         return
